@@ -662,3 +662,74 @@ Proof.
     assert (Hd : alook a L <> None) by (apply (r_dom _ _ _ _ R1); congruence).
     destruct (alook a L) as [n|] eqn:En; [|contradiction]. apply (i_len _ I1) in En. lia.
 Qed.
+
+(* ------------------------------------------------------------------ all blocks *)
+Lemma frun_frun3 : forall fuel c st s, frun fuel c st = Some s -> frun3 fuel c st = RDone s.
+Proof.
+  induction fuel as [|f IH]; intros c st s H; cbn in *; [discriminate|].
+  destruct (Nat.eqb (fst st) (List.length c)); [inv_ok H; reflexivity|].
+  destruct (fstep c st); [apply IH; exact H|discriminate].
+Qed.
+Lemma frun3_mono : forall f f' c st s, frun3 f c st = RDone s -> f <= f' -> frun3 f' c st = RDone s.
+Proof.
+  induction f as [|f IH]; intros f' c st s H Hle; cbn in H; [discriminate|].
+  destruct f' as [|f']; [lia|]. cbn.
+  destruct (Nat.eqb (fst st) (List.length c)); [exact H|].
+  destruct (fstep c st); [apply IH; [exact H|lia]|discriminate].
+Qed.
+Lemma run_blocks_mono : forall bs f f' s s', run_blocks f bs s = RDone s' -> f <= f' -> run_blocks f' bs s = RDone s'.
+Proof.
+  induction bs as [|[b|] bs IH]; intros f f' s s' H Hle; cbn in *; [exact H| |eapply IH; eauto].
+  destruct (frun3 f (flatten b) (0, s)) as [s1| |] eqn:E; try discriminate.
+  rewrite (frun3_mono _ _ _ _ _ E Hle). eapply IH; eauto.
+Qed.
+
+Lemma with_arr_self : forall e, with_arr e (e_arr e) = e.
+Proof. intros []. reflexivity. Qed.
+
+Theorem prog_sim : forall segs st0 bs stF e0 eF s0,
+  Forall (fun seg => bwfs seg = true) segs -> Inv st0 -> BlockStart st0 -> TRel st0 e0 s0 ->
+  lower_top true (prog_of segs) [] st0 = Ok (bs, stF) ->
+  eval_top (prog_of segs) (with_arr e0 (hoist_top (prog_of segs) (e_arr e0))) = Some eF ->
+  exists fuel sF, run_blocks fuel bs s0 = RDone sF /\ TRel stF eF sF.
+Proof.
+  induction segs as [|seg segs IH]; intros st0 bs stF e0 eF s0 Hw I0 B0 T0 Hl Hev.
+  - cbn in Hl, Hev. inv_ok Hl. rewrite with_arr_self in Hev. inv_ok Hev. exists 1, s0. split; [reflexivity|exact T0].
+  - inversion Hw as [|? ? Hw1 Hw2]; subst. cbn [prog_of] in Hl, Hev.
+    rewrite lower_top_seg in Hl by exact Hw1. rewrite hoist_top_seg in Hev by exact Hw1.
+    rewrite eval_top_seg in Hev by exact Hw1. cbn [app] in Hl.
+    destruct (lower_block true seg st0) as [[c st1]|] eqn:Hb; cbn [bind] in Hl; [|discriminate].
+    destruct (lower_flush c st1) as [[b st2]|] eqn:Hf; cbn [bind] in Hl; [|discriminate].
+    destruct (lower_top true (prog_of segs) [] st2) as [[rest st3]|] eqn:Hr; cbn [bind] in Hl; [|discriminate].
+    inv_ok Hl.
+    destruct (eval_block seg (with_arr e0 (hoist_block seg (e_arr e0)))) as [e1|] eqn:Eb; [|discriminate].
+    cbn zeta in Hev.
+    destruct (block_step seg st0 c st1 b st2 e0 e1 s0 Hw1 I0 B0 T0 Hb Hf Eb) as (s2 & Xb & I2 & B2 & T2).
+    destruct (IH st2 rest stF (snap e1) eF s2 Hw2 I2 B2 T2 Hr Hev) as (fuel & sF & Hrun & TF).
+    destruct b as [code|].
+    + destruct (proj2 (flatten_correct code s0 s2 Xb)) as (f1 & F1). apply frun_frun3 in F1.
+      exists (Nat.max f1 fuel), sF. split; [|exact TF]. cbn [run_blocks].
+      rewrite (frun3_mono _ _ _ _ _ F1 (Nat.le_max_l _ _)).
+      eapply run_blocks_mono; [exact Hrun|apply Nat.le_max_r].
+    + subst s2. exists fuel, sF. split; [exact Hrun|exact TF].
+Qed.
+
+(* C05, whole programs: a program of well-formed statements, flushed any number of times (each
+   segment followed by a flush), lowered by the builder model, flattened to labels and jumps and
+   run block by block on the controller, ends with the gate trace and the arrays of direct
+   evaluation *)
+Theorem sdk_compile_correct_wfs : forall segs script e bs st,
+  Forall (fun seg => bwfs seg = true) segs ->
+  eval_prog (prog_of segs) script = Some e ->
+  lower_prog true (prog_of segs) = Ok (bs, st) ->
+  exists fuel s, run_blocks fuel bs (m0 script) = RDone s /\ agrees s e.
+Proof.
+  intros segs script e bs st Hw Hev Hl. unfold eval_prog in Hev. unfold lower_prog in Hl.
+  assert (T0 : TRel l0 (e0 script) (m0 script)).
+  { split; [exact (Rel_init script)|]. intros a _. reflexivity. }
+  assert (B0 : BlockStart l0) by (constructor; cbn; auto; intros; discriminate).
+  destruct (prog_sim segs l0 bs st (e0 script) e (m0 script) Hw Inv_l0 B0 T0 Hl Hev) as (fuel & s & Hrun & [R _]).
+  exists fuel, s. split; [exact Hrun|]. unfold agrees. split.
+  - rewrite (r_trace _ _ _ _ R). reflexivity.
+  - apply (r_arr _ _ _ _ R).
+Qed.
